@@ -73,7 +73,7 @@ PROPS = {
                 rule="random SET/DB/DW sequences of all four kinds (values over the full signed/unsigned ranges, arrays 0..65535 elements incl. segment overflow, "
                      "strings with every printable character, segments up to FFFFh so that data crosses the 1 MB wrap); L3: emitted data lines, label offsets, OFFSET "
                      "values vs model; L4: the WHOLE memory image after loading (all non-zero bytes, via the verification hook) and `print mem` output vs the model's loader"),
-    "C13": dict(modules=["Emu8086.Props.C13", "Emu8086.Props.C13Subst"], runs=[("l4", "macros"), ("l4", "fuzz"), ("l3", "macros", {"VERIF_ISOLATE": "1"}), ("l3", "progs")], gen=["Arch", "ILiterals", "PPGrammar"],
+    "C13": dict(modules=["Emu8086.Props.C13", "Emu8086.Props.C13Subst"], runs=[("l4", "macros"), ("l4", "fuzz"), ("l3", "macros", {"VERIF_ISOLATE": "1"}), ("l3", "macroref", {"VERIF_ISOLATE": "1"}), ("l3", "progs")], gen=["Arch", "ILiterals", "PPGrammar"],
                 rule="random macro libraries (1-5 macros, 0-3 parameters whose names are prefixes/substrings of each other and of body tokens, macros using earlier "
                      "and later macros incl. cycles, names passed as arguments, uses inside procedures) x use sites with register / number / bracketed-memory / label "
                      "arguments: output of the real assembler vs the model's expansion; non-trivial = accepted program"),
